@@ -88,7 +88,9 @@ func (cfg *Config) paramExp(pe *syntax.ParamExp) (string, error) {
 	if n, v := vr.Resolve(cfg.Env); n != "" {
 		name, vr = n, v
 	}
-	if cfg.NoUnset && !vr.IsSet() && !overridingUnset(pe) {
+	// Like $@ and $*, ${name[@]} and ${name[*]} of an unset name expand to nothing rather than being an error.
+	unsetList := !pe.Length && (nodeLit(pe.Index) == "@" || nodeLit(pe.Index) == "*")
+	if cfg.NoUnset && !vr.IsSet() && !overridingUnset(pe) && !unsetList {
 		return "", UnsetParameterError{
 			Node:    pe,
 			Message: "unbound variable",
